@@ -2161,7 +2161,9 @@ def from_json(
     )
 
   if isinstance(json_value, list):
-    if json_value and json_value[0] == utils.JSONConvertible.TUPLE_MARKER:
+    if (json_value
+        and isinstance(json_value[0], str)
+        and json_value[0] == utils.JSONConvertible.TUPLE_MARKER):
       if len(json_value) < 2:
         raise ValueError(
             utils.message_on_path(
